@@ -315,7 +315,7 @@ def random_history(rng, src, length, kinds):
                 ok_env = isinstance(e, TexEnv) and not e.args and len(vis) == 1 and isinstance(vis[0], (TexText, str))
                 if not (ok_cmd or ok_env):
                     continue
-                op['s'] = to_atoms(rng.choice(['S t', 'u']))
+                op['s'] = to_atoms(rng.choice(['S t', 'u', '']))
             elif k.startswith('args_'):
                 if not isinstance(e, (TexCmd, TexNamedEnv)) or not all(isinstance(a, TexGroup) for a in e.args):
                     continue
@@ -406,7 +406,7 @@ def validate(chk, traces, clause, timeout=3000):
         for t in traces:
             f.write(json.dumps({'i': t['i'], 'h': [{'op': e['op'], 't': e['t'], 'cnt': e['cnt'], 'tv': e['tv'], 'ds': e['ds']} for e in t['h']]}) + '\n')
     defs = ['MCSrc == {}', 'MCKinds == {%s}' % ', '.join(tlc.tla_str(k) for k in ALL_KINDS),
-            'MCNames == {%s, %s}' % (S('zz'), S('kk*')), 'MCStrs == {%s, %s}' % (S('S t'), S('u')),
+            'MCNames == {%s, %s}' % (S('zz'), S('kk*')), 'MCStrs == {%s, %s, %s}' % (S('S t'), S('u'), S('')),
             'MCMat == {%s}' % ', '.join(mat_tla(m) for m in (('X',), (1,), (5, 'Y'), (6,), ('p q', 2, 3), (7,)))]
     cfg = ('SPECIFICATION TSpec\nCONSTANTS\n ESources <- MCSrc\n MaxEdits = 1000\n OpKinds <- MCKinds\n NewNames <- MCNames\n'
            ' NewStrings <- MCStrs\n Material <- MCMat\n TextTargets = TRUE\n RenameItems = TRUE\nINVARIANT Verdict\nCHECK_DEADLOCK FALSE\n')
